@@ -29,7 +29,7 @@ RULE = (
 )
 ASSUMPTIONS = ["the clock is the real one or freezegun's; no concurrent second writer on the same history"]
 BUDGET = {"quick": (220, 4), "thorough": (16000, 16)}
-REQUIRED = ["gens>=3", "failed_run", "same_second", "nested", "sf", "empty_root_sealed", "non_utc_host_zone", "same_named_children", "folder_name>=219_bytes", "failing_sf_into_nested_history"]
+REQUIRED = ["gens>=3", "failed_run", "same_second", "nested", "sf", "empty_root_sealed", "non_utc_host_zone", "same_named_children", "folder_name>=219_bytes", "failing_sf_into_nested_history", "nested_history_below_plain_folder"]
 
 CFG = {
     "kinds": ["create"] * 6 + ["create_sf"] * 2 + ["put_new", "overwrite", "overwrite", "rm", "rm", "rmtree", "mkdir", "mv", "rmfiles"],
@@ -116,6 +116,14 @@ def observe(w, before, after, res, t0, t1, frozen, ctx, stats, invoked=None, sf=
         require(a.get(invoked) != b.get(invoked), "root-generation", "create on %r (%s) wrote no generation for it" % (invoked, res.brief()), res)
         if not w.media_files(invoked):
             ctx.event("empty_root_sealed")
+        # ... and so does every history below it, however many plain folders or other histories lie in between
+        import os as _os
+
+        for h in b:
+            if h != invoked and w.under(h, invoked) and _os.path.isdir(w.abs(h)):
+                require(a.get(h) != b.get(h), "nested-generation", "create on %r (%s) wrote no generation into the nested history %r" % (invoked, res.brief(), h), res)
+                if posixpath.dirname(h) != invoked and posixpath.dirname(h) not in b:
+                    ctx.event("nested_history_below_plain_folder")
     for h, files in b.items():
         require(h in a, "append-only", "ascmhl folder of %r vanished (%s)" % (h, res.brief()), res)
         for fn, data in files.items():
